@@ -43,7 +43,11 @@ pub fn meta(tier: Tier) -> CheckMeta {
             "reader tasks never wait for each other while holding an engine (harness-made deadlocks excluded)".into(),
             "progress is decided by the supervisor's quiescence watchdog".into(),
         ],
-        parts: vec![PartSpec { name: "native", nshards: 16, budget_s: tier.pick(300, 2400), env: vec![], program: None, prepare: None, sanitizer: None }],
+        parts: {
+            let mut parts = vec![PartSpec { name: "native", nshards: 16, budget_s: tier.pick(300, 2400), env: vec![], program: None, prepare: None, sanitizer: None }];
+            if tier == Tier::Thorough { parts.push(crate::sup::sanitizer_part("tsan", 8, 2400)); }
+            parts
+        },
         must_be_nonzero: vec![
             ("hook_hits_sync_sites", "sync.rs yield sites never reached"),
             ("readers_overlapping_session_call", "no reader ever overlapped a session call"),
